@@ -1,6 +1,7 @@
 \* exhaustive (thorough): histories of <= 2 cycles x 0..2 burn steps from every start point, two stacks, coupling off / on, all single failures
 CONSTANTS MaxCyc = 2  MaxBurn = 2  Tights = {FALSE, TRUE}  WithStarts = TRUE  MaxLevel = 400
 CONSTANTS RestartFrom = {"completed", "aborted"}  Phase2Fails = TRUE
+CONSTANT FailKinds = {"RuntimeError", "CustomError", "SystemExit", "KeyboardInterrupt", "BaseException"}
 CONSTANT Configs <- NoConfigs
 INIT RInit
 NEXT RNextR
@@ -15,6 +16,8 @@ INVARIANT MarkAndPlace
 INVARIANT RestartHoldsWholeHistory
 INVARIANT MergedUnchanged
 INVARIANT RestartIsInit
+INVARIANT ProbesServeLive
+INVARIANT RestartedStatesDiffer
 INVARIANT RunningFileHoldsWrittenNodes
 INVARIANT ScheduleIsNestedLoop
 INVARIANT DispatchExactlyActiveInOrder
